@@ -296,7 +296,7 @@ Validates(o, v) ==
   ELSE CASE o.vb = "none"     -> TRUE
          [] o.vb = "std"      -> IF o.type = "tregexp" THEN v.okA ELSE v.ok   \* NewTemplatedRegexp anchors, then compiles
          [] o.vb = "anchored" -> v.okA                                        \* PromqlSeriesSettings.Validate
-         [] o.vb = "grouped"  -> v.ok /\ v.okG                                \* validateMatchRegex (F13 fix)
+         [] o.vb = "grouped"  -> v.ok /\ v.okG                                \* validateMatchRegex (F25 fix)
          [] o.vb = "nonzero"  -> v.ok /\ v.cls # "zero"          \* range_query max cannot be zero
          [] o.vb = "positive" -> v.ok /\ v.cls # "zero"          \* ci maxCommits cannot be <= 0
 
@@ -334,7 +334,7 @@ UseFails(o, v, r) ==
                                                                \* anchoring a valid regexp keeps it valid (AnchorProbe)
     [] o.ub = "matchRegex"  -> Reaches(o, v, r) /\ ~v.okG      \* unreachable since validate compiles the same form
     \* rule/link: a rewritten URI that http.NewRequest refuses ("%zz") is reported as "link check failed"
-    \* (before the F14 fix the error was dropped and http.Client.Do(nil) crashed)
+    \* (before the F26 fix the error was dropped and http.Client.Do(nil) crashed)
     [] o.ub = "newRequest"  -> FALSE
     [] OTHER                -> FALSE
 
